@@ -3193,6 +3193,9 @@ impl Block {
         let mut new_slips_map = std::collections::HashMap::new();
         let transactions_valid = self.transactions.iter().all(|tx: &Transaction| -> bool {
             let valid_tx = tx.validate(utxoset, blockchain, validate_against_utxo);
+            if !valid_tx {
+                return false;
+            }
             // validate double-spend inputs
             if valid_tx && tx.transaction_type != TransactionType::Fee {
                 for input in tx.from.iter() {
